@@ -482,9 +482,12 @@ def parseRegexTail : P (Option Expr) := do
 
 theorem parseRegex_eq :
     parseRegex = (do
-      let c0 ← peekRune
-      if isWhitespace c0 then consumeWhitespace
-      parseRegexTail) := rfl
+      let s ← get
+      if s.n > 0 then pure none
+      else
+        let c0 ← peekRune
+        if isWhitespace c0 then consumeWhitespace
+        parseRegexTail) := rfl
 
 def IsRegexOpt (r : Option Expr) : Prop := ∀ re, r = some re → ∃ src, re = .regex src
 
@@ -545,7 +548,11 @@ theorem parseRegexTail_wp (s : PState) (hg : Good s) (hn : s.n ≤ 1) :
 back, and a result is a regex literal. -/
 theorem parseRegex_wp (s : PState) (hg : Good s) (hn : s.n ≤ 1) :
     wp parseRegex s (fun r s' => Prog s s' ∧ s'.n ≤ 1 ∧ IsRegexOpt r) Fail.isErr := by
-  rw [parseRegex_eq, wp_bind, peekRune_wp]
+  rw [parseRegex_eq, wp_bind, wp_get, wp_ite]
+  split
+  · rw [wp_pure]
+    exact ⟨Prog.refl hg, hn, fun re h => by cases h⟩
+  rw [wp_bind, peekRune_wp]
   obtain ⟨hp1, hn1, _⟩ := peekSt_facts s hg
   have hn1' : (peekSt s).n ≤ 1 := by rw [hn1]; exact hn
   dsimp only
